@@ -656,8 +656,13 @@ func DriverMain(args []string) int {
 			"violations": len(printed),
 		}
 		data, _ := json.MarshalIndent(ev, "", " ")
-		os.MkdirAll(filepath.Join(root, "evidence"), 0o755)
-		os.WriteFile(filepath.Join(root, "evidence", id+".json"), append(data, '\n'), 0o644)
+		evDir := filepath.Join(root, "evidence")
+		if r := os.Getenv("VERIF_REPO"); r != "" && r != "/repo" {
+			// development drill against a scratch copy: keep the evidence of /repo's tree untouched
+			evDir = filepath.Join(root, "bin", id+os.Getenv("VERIF_BINTAG"), "evidence")
+		}
+		os.MkdirAll(evDir, 0o755)
+		os.WriteFile(filepath.Join(evDir, id+".json"), append(data, '\n'), 0o644)
 	}
 
 	fmt.Printf("%s tier=%s seed=%d evaluations=%d distinct_nontrivial=%d batches=%d violations=%d known=%d wall=%.1fs\n",
